@@ -162,7 +162,8 @@ func (g *Gen) randQuery(dim int) string {
 	return intList(q)
 }
 
-// liveSubset returns a random subset of docs not in the exclusion spec.
+// liveSubset returns a random eligible set: mostly documents outside the exclusion spec, in 30 % of
+// the calls also excluded ones.
 func (g *Gen) liveSubset(nd int, ex string, mode int) string {
 	excl := map[int]bool{}
 	if ex != "nil" && ex != "-" {
@@ -173,8 +174,11 @@ func (g *Gen) liveSubset(nd int, ex string, mode int) string {
 		}
 	}
 	var out []int
+	// the eligible set is the caller's: it may well name documents that the exclusion bitmap
+	// removes (the full-selectivity case - every document eligible - is one the code itself expects)
+	withExcluded := g.chance(0.3)
 	for d := 0; d < nd; d++ {
-		if excl[d] {
+		if excl[d] && !(withExcluded && g.chance(0.7)) {
 			continue
 		}
 		switch mode {
